@@ -394,6 +394,10 @@ func runC03(c *Ctx) {
 	c.rule("R8", "the cache key is injective in the question (a hit must carry the asker's own question)", 37)
 	checkCacheKeyLayout(c)
 
+	// ---------------------------------------------------------------- R12
+	c.rule("R12", "what the cache stores shares no memory with the live response (a later plugin's in-place rewrite of the reply's question must not end up in the entry that answers another name)", 5)
+	checkCopyHelperDeep(c)
+
 	// ---------------------------------------------------------------- R11
 	c.rule("R11", "the server tells the handler how the query arrived: FromUDP is the constant true exactly at the datagram server's Handle call", 3)
 	for _, f := range p.funcsIn(relServer) {
@@ -690,6 +694,13 @@ func runC03R6(c *Ctx) {
 					}
 				})
 				if deferred {
+					// the very message that was changed is restored: the message is the one fetched by the enclosing function
+					// before the change (captured), not whatever qCtx.Q() returns when the defer runs (a later plugin may
+					// have replaced the context's contents, while the server still holds the original message)
+					if qCall.Parent() != fn.Parent() {
+						c.fail(key, instrPos(in), "the deferred restore writes into the message that qCtx.Q() returns at that time, not into the message that was changed: when a later plugin replaced the context (dual-stack selector) the server's query message keeps the rewritten name and the reply carries it")
+						return
+					}
 					c.check(isSavedOriginal(p, st.Val, k), key, instrPos(in), "the deferred restore writes back the value loaded before the change",
 						"the deferred restore writes "+exprStr(st.Val)+", not the unmodified value that was loaded from the query before it was changed: the reply is built for another spelling of the question than the client asked")
 					return
